@@ -25,14 +25,16 @@ theorem good_optDisconnect {s : St} (h : Inv s) (p : Option Nat) :
   | some cid => exact Good.disconnectCell h cid
 
 theorem good_invalidateTrackable' {off} {s s0 : St} (h : InvX off s) (hi : s0.impls = s.impls) (hG : s0.G = s.G)
-    (hS : s0.S = s.S) (he : s0.err = s.err) (hn : s.next ≤ s0.next) (t : Nat) :
+    (hS : s0.S = s.S) (he : s0.err = s.err) (hn : s.next ≤ s0.next) (t : Nat)
+    (hO : s0.ownedG = s.ownedG := by first | rfl | assumption) :
     Good off s (invalidateTrackable s0 t) :=
-  (Good.of_core h hi hG hS he hn).andThen (fun h => good_invalidateTrackable h t)
+  (Good.of_core h hi hG hS he hn hO).andThen (fun h => good_invalidateTrackable h t)
 
 theorem good_optDisconnect' {s s0 : St} (h : Inv s) (hi : s0.impls = s.impls) (hG : s0.G = s.G)
-    (hS : s0.S = s.S) (he : s0.err = s.err) (hn : s.next ≤ s0.next) (p : Option Nat) :
+    (hS : s0.S = s.S) (he : s0.err = s.err) (hn : s.next ≤ s0.next) (p : Option Nat)
+    (hO : s0.ownedG = s.ownedG := by first | rfl | assumption) :
     Good0 s (match p with | some cid => disconnectCell s0 cid | none => s0) :=
-  (Good.of_core h hi hG hS he hn).andThen (fun h => good_optDisconnect h p)
+  (Good.of_core h hi hG hS he hn hO).andThen (fun h => good_optDisconnect h p)
 
 /-! ## trackables -/
 
